@@ -193,7 +193,7 @@ def run(ctx):
         ctx.hist('budget=' + ('E' if dyadic else 'R'))
 
         def args():
-            asig = eqsig.AccSignal(a.copy(), dt)
+            asig = ctx.aged(eqsig.AccSignal, a.copy(), dt)
             t = float(tts[0]) if tt_form == 'scalar' else (list(tts) if tt_form == 'list' else tta.copy())
             if red[0] == 'S':
                 u, d = red[1], red[2]
@@ -392,7 +392,7 @@ def run(ctx):
     def join_sig(values, dt, tshifts):
         values = np.asarray(values, dtype=float)
         for jt in ('add', 'sub'):
-            asig = eqsig.AccSignal(values.copy(), dt)
+            asig = ctx.aged(eqsig.AccSignal, values.copy(), dt)
             ta = np.array(tshifts, dtype=float)
             res = call_impl(tsh.join_sig_w_time_shift, asig, ta, jtype=jt)
             inputs = {'values': values, 'dt': dt, 'time_shifts': list(tshifts), 'jtype': jt}
